@@ -304,7 +304,8 @@ def divide_split(state):
     """
     if isinstance(state, (int, np.integer)):
         remainder = state % 2
-        half = int(state / 2)
+        # integer division: exact for integers of any size and sign
+        half = state // 2
         if random.choice([True, False]):
             return [half + remainder, half]
         else:
